@@ -17,10 +17,11 @@ Oracles (model = treesim.MTree + the shelve model below, no breezy code):
   state before that shelve, no conflicts;
 * shelf ids: a new shelf gets an id above every active one, ids are unique,
   `active_shelves()` is what the model says after every step and after reopening.
-* optional fault (a share of the runs): one file-system call of the transform that removes the
-  shelved changes fails (simkit.osseam): afterwards the tree equals the state before, and the
-  shelf file that was written first either does not exist or can be unshelved onto the tree
-  it was made from... (see ASSUMPTIONS: only 'tree unchanged' and 'shelf readable' are judged).
+* fault (a share of the runs): one file-system call of the transform that removes the shelved
+  changes fails (simkit.osseam, OSError before the call): afterwards the tree is either exactly
+  as before or completely shelved, and the shelf file, which is written before the transform
+  runs, can be read back by get_unshelver.  Deletions from pending-deletion are no fault sites
+  (their failure is C13's reported finding).
 """
 
 import hashlib
@@ -82,6 +83,7 @@ GUARDS = {
     # Merge3Merger._entries3 -> find_previous_path
     "add_at_deleted_name": True,
 }
+TERRITORY_ORDER = ["delete_at_reoccupied_path", "add_at_deleted_name", "exec_lost", "exec_stale"]
 ASSUMPTIONS = [
     "bzr (2a) trees only: git working trees raise ShelvingUnsupported",
     "selections are consistent: the model reverts the selected changes and must obtain a tree, and the selected changes applied to the basis must give a tree as well (the shelf is stored as a transform of the basis; e.g. the addition of a new entry at a path whose old occupant's removal is not shelved comes back as 'e.moved') (every entry below a versioned directory, no two entries on one path, nothing unversioned left inside a directory that goes away); selections that do not give a tree are not generated (breezy refuses them with MalformedTransform or resolves them by conflict heuristics; the property does not say which)",
@@ -329,24 +331,22 @@ def shelve_model(m, sel, hunks, guards):
         _f, bkind, bdata, bexec = m.basis[bp]
         bpar = m.basis[T.parent(bp)][0]
         if typ == "delete":
-            if (bp in m.inv or (fid in wids and bp in m.disk)) and "delete_at_reoccupied_path" in guards:
+            if ((bp in m.inv and m.inv[bp][0] != fid) or (fid in wids and bp in m.disk)) and "delete_at_reoccupied_path" in guards:
                 raise Unmodelled("basis path of the deleted entry is taken", "delete_at_reoccupied_path")
             if fid in wids:
                 n = byid[fid]  # versioned, missing on disk
-                n["kind"], n["data"], n["exec"] = bkind, bdata, False
+                n["kind"], n["data"], n["exec"] = bkind, bdata, bool(bexec)
                 n.pop("ghost", None)
                 exec_guard(bexec)
-            elif bp in m.disk:
+            elif bp in m.disk and bp not in m.inv:
                 n = nodes[bp]
-                if n["ver"]:
-                    raise Unmodelled("basis path taken by another entry")
                 if (n["kind"], n["data"], bool(n["exec"])) != (bkind, bdata, bool(bexec)) or n["kids"]:
                     raise Unmodelled("unversioned file at the basis path differs from the basis")
                 n["ver"], n["fid"] = True, fid
                 n["reversioned"] = True
                 byid[fid] = n
             else:
-                n = _node(bkind, bdata, False)
+                n = _node(bkind, bdata, bool(bexec))
                 exec_guard(bexec)
                 n["ver"], n["fid"] = True, fid
                 n["new"] = True
@@ -364,7 +364,7 @@ def shelve_model(m, sel, hunks, guards):
                 if n["kind"] == DIR and n["kids"]:
                     # the directory's contents would have to go somewhere
                     n["was_dir"] = True
-            n["kind"], n["data"], n["exec"] = bkind, bdata, False
+            n["kind"], n["data"], n["exec"] = bkind, bdata, bool(bexec) if bkind == FILE else False
         elif typ == "text":
             n = byid[fid]
             if (n["exec"] or bexec or fid in getattr(m, "xt", ())) and "exec_stale" in guards:
@@ -557,7 +557,8 @@ def lifted_guards():
 def choose_unguarded(rng):
     x = rng.random()
     if x < P_UNGUARDED:
-        return sorted(GUARDS)
+        only = os.environ.get("VERIF_UNGUARD_ONLY")
+        return sorted(only.split(",")) if only else sorted(GUARDS)
     if x < P_LIFT:
         return lifted_guards()
     return []
@@ -701,7 +702,7 @@ def gen_script(rng, model, guards, fault):
                 sel, hunks = ch
                 step = {"a": "shelve", "sel": sel, "hunks": hunks}
                 if fault and shelved == 0 and rng.random() < 0.7:
-                    step["fault"] = {"at": rng.randint(1, 12), "errno": rng.choice(sorted(osseam.ERRNOS))}
+                    step["fault"] = {"at": rng.randint(1, 7), "errno": rng.choice(sorted(osseam.ERRNOS))}
                     fault = False
                 m2 = after_shelve(m, {(t, f.encode()) for t, f in sel}, {f.encode(): set(v) for f, v in hunks.items()}, guards)
                 if "fault" not in step:
@@ -1143,13 +1144,19 @@ def execute(sim, plan):
                 sim.event("shelf", j, "skip-unmodelled", e.why)
                 continue
             if plan.get("unguarded") and not sim.notes.get("territory"):
-                try:
-                    shelve_model(model, sel, hunks, set(GUARDS))
-                except Unmodelled as e:
-                    if e.guard:
-                        sim.notes["territory"] = e.guard
-                        sim.probe("territory_" + e.guard)
-                        sim.event("territory", e.guard)
+                # which reported defect (lifted guard) does this selection run into?  the one
+                # that strikes first (at shelve time) names the territory
+                for g in TERRITORY_ORDER:
+                    if g in guards:
+                        continue
+                    try:
+                        shelve_model(model, sel, hunks, {g})
+                    except Unmodelled as e:
+                        if e.guard == g:
+                            sim.notes["territory"] = g
+                            sim.probe("territory_" + g)
+                            sim.event("territory", g)
+                            break
             fault = st.get("fault")
             types = sorted({t for t, _f in sel})
             sid, exc = do_shelve(sim, tree, model, sel, hunks, fault)
